@@ -12,6 +12,8 @@ CONFIG = dict(
         dict(name="c20_codec_register", tier="quick"),
         dict(name="c20_codec_reregister", tier="quick"),
         dict(name="c20_two_fds_distinct", tier="quick"),
+        dict(name="c20_failed_poll_releases_the_guard", tier="quick"),
+        dict(name="c20_second_direction_registers_its_callers_token", tier="quick"),
     ],
     functions=["net::selector::mio_adapter::Poller::do_register", "Poller::do_reregister", "Poller::do_select",
                "<mio::event::Event as selector::Event>::get_token", "Selector::add_read_event", "Selector::register",
